@@ -69,8 +69,26 @@ func scalarByte(v value) (*term, bool) {
 	return nil, false
 }
 
+// viewslice is a slice header reinterpreted with another element type
+// (*(*[]uintptr)(unsafe.Pointer(&b))): same data pointer and the same
+// length/capacity *numbers*, elements decoded little-endian from the bytes.
+type viewslice struct {
+	base []value // bytes from the slice's data pointer to the end of its backing array
+	elem types.Type
+	n    int
+}
+
 func reinterpret(in *interpreter, u uptr, d *types.Pointer) value {
 	var base []value
+	if sp, ok := u.t.Underlying().(*types.Pointer); ok {
+		if ss, ok := sp.Elem().Underlying().(*types.Slice); ok {
+			if ds, ok := d.Elem().Underlying().(*types.Slice); ok && byteSized(ss.Elem()) {
+				if _, _, isInt := basicInfo(ds.Elem()); isInt {
+					return &viewptr{hdr: u.p.(*value), t: d.Elem()}
+				}
+			}
+		}
+	}
 	switch p := u.p.(type) {
 	case *viewptr:
 		base = p.base
@@ -162,9 +180,20 @@ func (p *viewptr) storeAt(in *interpreter, off int64, T types.Type, v value) {
 	panic(unsupported{"view store of " + T.String()})
 }
 
-func (p *viewptr) load(in *interpreter, T types.Type) value { return p.loadAt(in, 0, T) }
+func (p *viewptr) load(in *interpreter, T types.Type) value {
+	if p.hdr != nil {
+		sl := (*p.hdr).([]value)
+		return &viewslice{base: sl[:cap(sl)], elem: T.Underlying().(*types.Slice).Elem(), n: len(sl)}
+	}
+	return p.loadAt(in, 0, T)
+}
 
-func (p *viewptr) store(in *interpreter, T types.Type, v value) { p.storeAt(in, 0, T, v) }
+func (p *viewptr) store(in *interpreter, T types.Type, v value) {
+	if p.hdr != nil {
+		panic(unsupported{"store through a reinterpreted slice header"})
+	}
+	p.storeAt(in, 0, T, v)
+}
 
 func (p *viewptr) fieldAddr(in *interpreter, T types.Type, field int) value {
 	st := T.Underlying().(*types.Struct)
